@@ -79,8 +79,8 @@ Lemma dict_add_step kvs k v po e :
   istep (mkSt (VDict kvs) po e) (IAdd false [PKey k] (Some v)) = mkSt (VDict (dict_set kvs k v)) po e.
 Proof. reflexivity. Qed.
 
-Lemma dict_rem_step kvs kvs' k v po e :
-  assoc k kvs = Some v -> py_eqv v v = true -> dict_del kvs k = Some kvs' ->
+Lemma dict_rem_step kvs kvs' k v cur po e :
+  assoc k kvs = Some cur -> py_eqv v cur = true -> dict_del kvs k = Some kvs' ->
   istep (mkSt (VDict kvs) po e) (IRem [PKey k] v) = mkSt (VDict kvs') po e.
 Proof.
   intros A R Dl. cbn [istep]. unfold remove_one. cbn [removelast last key_atom resolve root get_item].
@@ -180,7 +180,7 @@ Definition InvD (R : list item) (W : value) : Prop :=
     (forall k', In k' (map fst kvs) -> In k' K \/ In k' AK \/ exists v, In (IRem [PKey k'] v) R) /\
     (forall k', In k' AK -> assoc k' kvs = Some (f k')) /\
     nodup_atoms (map ikey R) = true /\
-    (forall x, In x R -> exists k v, x = IRem [PKey k] v /\ assoc k kvs = Some v /\ wf v = true /\
+    (forall x, In x R -> exists k v cur, x = IRem [PKey k] v /\ assoc k kvs = Some cur /\ py_eqv v cur = true /\
                           (forall k0, In k0 K -> py_eq k0 k = false) /\ (forall k', In k' AK -> py_eq k k' = false)).
 
 Lemma dict_pass9 s S c9 R0 q9 :
@@ -189,7 +189,7 @@ Lemma dict_pass9 s S c9 R0 q9 :
 Proof.
   intros HR HI Hc HP.
   assert (OwnR : forall x, In x R0 -> own6 x = true /\ forall k0, In k0 K -> fkey x <> Some k0).
-  { intros x Hx. destruct HI as (kvs & _ & _ & _ & _ & _ & _ & HRI). destruct (HRI x Hx) as (k & v & -> & _ & _ & HK0 & _).
+  { intros x Hx. destruct HI as (kvs & _ & _ & _ & _ & _ & _ & HRI). destruct (HRI x Hx) as (k & v & cur & -> & _ & _ & HK0 & _).
     split; [reflexivity|]. intros k0 Hk0 E0. unfold fkey in E0. cbn in E0. inversion E0; subst k0.
     pose proof (HK0 k Hk0) as Z. rewrite py_eq_refl in Z. discriminate. }
   destruct (rel_fold conv bidir K (list item) InvD nextP own6) with
@@ -200,16 +200,16 @@ Proof.
     exists (dict_set kvs k v). split; [reflexivity|]. rewrite dict_set_keys by exact Mk.
     split; [exact N|]. split; [exact HKp|]. split; [exact HK|]. split; [|split; [exact NR|]].
     + intros k' Hk'. rewrite assoc_dict_set_other by (apply HKA; assumption). apply HA. exact Hk'.
-    + intros x Hx. destruct (HRI x Hx) as (kr & vr & -> & Ar & Wr & HK0 & HA0).
-      exists kr, vr. split; [reflexivity|]. split; [|auto].
+    + intros x Hx. destruct (HRI x Hx) as (kr & vr & cr & -> & Ar & Wr & HK0 & HA0).
+      exists kr, vr, cr. split; [reflexivity|]. split; [|auto].
       rewrite assoc_dict_set_other by (apply HK0; exact Hk). exact Ar.
   - (* own steps *)
     intros R R' s0 S0 x HR0 (kvs & Hroot & N & HKp & HK & HA & NR & HRI) Ox (l1 & l2 & -> & ->).
     assert (Hxin : In x (l1 ++ x :: l2)) by (apply in_or_app; right; left; reflexivity).
-    destruct (HRI x Hxin) as (k & v & -> & Ak & Wv & HK0 & HA0).
-    destruct (dict_del_spec kvs k v N Ak) as (kvs' & Hd & Nd & Hkeys & Hassoc).
+    destruct (HRI x Hxin) as (k & v & cur & -> & Ak & Wv & HK0 & HA0).
+    destruct (dict_del_spec kvs k cur N Ak) as (kvs' & Hd & Nd & Hkeys & Hassoc).
     destruct s0 as [W po e]. cbn [root] in Hroot. subst W.
-    rewrite (dict_rem_step conv bidir kvs kvs' k v po e Ak (py_eqv_rfl v Wv) Hd). cbn [root].
+    rewrite (dict_rem_step conv bidir kvs kvs' k v cur po e Ak Wv Hd). cbn [root].
     rewrite map_app in NR. cbn [map] in NR. apply nodup_split in NR as [NR' NRk]. rewrite <- map_app in NR', NRk.
     split.
     + eapply Rel_reroot_dict; [exact HR0|]. intros k0 Hk0. apply Hassoc. rewrite py_eq_sym. apply HK0. exact Hk0.
@@ -225,8 +225,8 @@ Proof.
       * intros k' Hk'. rewrite Hassoc by (apply HA0; exact Hk'). apply HA. exact Hk'.
       * intros y Hy. assert (Hy' : In y (l1 ++ IRem [PKey k] v :: l2)).
         { apply in_app_or in Hy as [Hy|Hy]; apply in_or_app; [left|right; right]; exact Hy. }
-        destruct (HRI y Hy') as (ky & vy & -> & Ay & Wy & HKy & HAy).
-        exists ky, vy. split; [reflexivity|]. split; [|auto].
+        destruct (HRI y Hy') as (ky & vy & cy & -> & Ay & Wy & HKy & HAy).
+        exists ky, vy, cy. split; [reflexivity|]. split; [|auto].
         rewrite Hassoc; [exact Ay|]. apply (NRk ky). change ky with (ikey (IRem [PKey ky] vy)). apply in_map. exact Hy.
   - (* the other items are child items *)
     intros x Hx Ox. apply (Permutation_in _ (Permutation_sym HP)) in Hx. apply in_app_or in Hx as [Hx|Hx].
@@ -266,7 +266,7 @@ Variables kvs1 kvs2 : list (atom * value).
 Notation D := (D hatom udiff ops c conv bidir always T1 T2).
 Notation DC := (DC hatom udiff ops c conv bidir always T1 T2 q kvs2).
 Notation Good := (Good hatom udiff ops c conv bidir always).
-Notation GoodD := (GoodD conv bidir).
+Notation GoodD := (GoodD conv bidir always).
 Notation irun := (irun conv bidir).
 Notation run_passes := (run_passes conv bidir).
 Notation finish := (finish conv bidir).
@@ -384,6 +384,29 @@ Proof.
 Qed.
 
 
+Definition S0b (kvsb : list (atom * value)) : atom -> st := fun k => mkSt (ov (assoc k kvsb)) [] 0.
+
+Lemma Rel_init_dict_b kvsb : nodup_atoms (map fst kvsb) = true -> (forall k, In k K -> In k (map fst kvsb)) ->
+  Rel K (mkSt (VDict kvsb) [] 0) (S0b kvsb).
+Proof.
+  intros Nb HK. unfold Rel. cbn [root post errs]. split; [|split; [|split; [|split]]].
+  - cbn [sepK]. split.
+    + intros k Hk. apply mem_atom_In. exists k. split; [apply HK; exact Hk|apply py_eq_refl].
+    + intros k k' Hk Hk' N. apply K_spec in Hk as [Hk _]. apply K_spec in Hk' as [Hk' _]. apply (nodup_py (map fst kvs1)); assumption.
+  - intros k Hk. destruct (assoc_In_key k kvsb Nb (HK k Hk)) as (v & A & _).
+    cbn [get_item]. unfold S0b. rewrite A. reflexivity.
+  - intros k Hk. reflexivity.
+  - intros p [].
+  - intros _. reflexivity.
+Qed.
+
+Lemma mem_atom_perm k l l' : Permutation l l' -> mem_atom k l = mem_atom k l'.
+Proof.
+  intros P. destruct (mem_atom k l) eqn:M1, (mem_atom k l') eqn:M2; try reflexivity.
+  - apply mem_atom_In in M1 as (b & Hb & E). assert (mem_atom k l' = true) by (apply mem_atom_In; exists b; split; [eapply Permutation_in; eassumption|exact E]). congruence.
+  - apply mem_atom_In in M2 as (b & Hb & E). assert (mem_atom k l = true) by (apply mem_atom_In; exists b; split; [eapply Permutation_in; [apply Permutation_sym; exact P|exact Hb]|exact E]). congruence.
+Qed.
+
 Theorem dict_node_good :
   dict_shortcut nos c (keys_of c kvs1) (keys_of c kvs2) q = false ->
   resolve T1 q = Some (VDict kvs1) -> resolve T2 q = Some (VDict kvs2) ->
@@ -395,7 +418,7 @@ Proof.
   assert (Sub : forall kv, In kv kvs1 -> In (fst kv) (map fst kvs1)) by (intros kv H; apply in_map; exact H).
   assert (ND1 : NoDup (map fst kvs1)) by (apply nodup_NoDup; exact N1).
   assert (HGD : forall k v1 v2, In (k, v1) kvs1 -> assoc k kvs2 = Some v2 ->
-            DeltaGood.GoodD conv bidir (D v1 v2 (snoc q (PKey k))) (S (length q)) v1 v2).
+            DeltaGood.GoodD conv bidir always (D v1 v2 (snoc q (PKey k))) (S (length q)) v1 v2).
   { intros k v1 v2 Hin A. rewrite <- (snoc_length q (PKey k)). apply (HG k v1 v2 Hin A).
     - unfold snoc. rewrite resolve_snoc, R1. cbn [key_atom get_item]. eapply assoc_nodup; [exact N1|exact Hin|apply py_eq_refl].
     - unfold snoc. rewrite resolve_snoc, R2. cbn [key_atom get_item]. exact A. }
@@ -403,6 +426,21 @@ Proof.
   split.
   { cbn [dapp d_moved]. rewrite (DC_moved kvs1 Sub ND1) by (intros k v1 v2 Hin A; apply (HGD k v1 v2 Hin A)).
     unfold to_delta. cbn [d_moved]. rewrite !flat_map_map_nil by reflexivity. reflexivity. }
+  intros vb Wvb Vvb OB. destruct vb as [| | |kvsb| |]; try (cbn in Vvb; discriminate Vvb).
+  cbn [wf] in Wvb. apply andb_true_iff in Wvb as [Nb Wb].
+  pose proof (veqb_dict_keys kvsb kvs1 Vvb ND1) as PKb.
+  assert (VB : forall k vv, In (k, vv) kvsb -> exists v1, In (k, v1) kvs1 /\ veqb vv v1 = true).
+  { rewrite veqb_dict in Vvb. apply andb_true_iff in Vvb as [_ V3]. intros k vv Hin.
+    destruct (dict_veq_elim kvs1 kvsb V3 k vv Hin) as (v1 & L & E). exists v1. split; [apply lookup_In; exact L|exact E]. }
+  assert (KB : forall k, In k (map fst kvs1) <-> In k (map fst kvsb)).
+  { intros k. split; intros Hk; [eapply Permutation_in; [exact PKb|exact Hk]|eapply Permutation_in; [apply Permutation_sym; exact PKb|exact Hk]]. }
+  assert (MB : forall k, mem_atom k (map fst kvsb) = mem_atom k (map fst kvs1)) by (intros k; symmetry; apply mem_atom_perm; exact PKb).
+  assert (AB : forall k v1, In (k, v1) kvs1 -> exists vv, assoc k kvsb = Some vv /\ In (k, vv) kvsb /\ wf vv = true /\ veqb vv v1 = true).
+  { intros k v1 Hin. assert (Hk : In k (map fst kvsb)) by (apply KB; apply in_map_iff; exists (k, v1); split; [reflexivity|exact Hin]).
+    destruct (assoc_In_key k kvsb Nb Hk) as (vv & A & Hvv). exists vv. split; [exact A|]. split; [exact Hvv|].
+    split; [eapply forallb_forall in Wb; [|exact Hvv]; exact Wb|].
+    destruct (VB k vv Hvv) as (v1' & Hin' & E). assert (v1' = v1); [|subst; exact E].
+    pose proof (assoc_nodup kvs1 k v1' k N1 Hin' (py_eq_refl k)). pose proof (assoc_nodup kvs1 k v1 k N1 Hin (py_eq_refl k)). congruence. }
   intros P HA. rewrite !sbase_dapp in HA.
   rewrite sbase_adds, sbase_rems in HA.
   destruct (DC_struct hatom udiff ops c conv bidir always T1 T2 q kvs1 kvs2 Hkeep1 Hkeep2 Hident kvs1 Sub ND1) as (Sa & Sb & Sc).
@@ -417,7 +455,8 @@ Proof.
   pose proof HA as HA0.
   cbn in HA. destruct HA as (-> & -> & -> & -> & -> & [P6 D6] & [P7 D7] & -> & [P9 D9]).
   (* passes 1-7 *)
-  pose proof Rel_init_dict as R0.
+  assert (R0 : Rel K (mkSt (VDict kvsb) [] 0) (S0b kvsb)).
+  { apply Rel_init_dict_b; [exact Nb|]. intros k Hk. apply KB. apply K_spec in Hk as [Hk _]. exact Hk. }
   destruct (rel_passes_children conv bidir K [c1; c2; c3; c4; c5; q6; q7] _ _
      (Forall_cons _ C1 (Forall_cons _ C2 (Forall_cons _ C3 (Forall_cons _ C4 (Forall_cons _ C5
        (Forall_cons _ (child_items_perm _ _ _ P6 C6) (Forall_cons _ (child_items_perm _ _ _ P7 C7) (Forall_nil _)))))))) R0)
@@ -425,21 +464,21 @@ Proof.
   cbn [root] in O7. apply same_off_dict in O7 as (kvs7 & Hk7 & Keys7 & Off7).
   set (A8 := map (fun k : atom => IAdd false [PKey k] (Some (ov (assoc k kvs2)))) AK) in *.
   set (R9 := map (fun k : atom => IRem [PKey k] (ov (assoc k kvs1))) RK) in *.
-  assert (Erun : run_passes [c1; c2; c3; c4; c5; q6; q7; A8 ++ c8; q9] (mkSt (VDict kvs1) [] 0)
-                 = irun q9 (irun c8 (irun A8 (run_passes [c1; c2; c3; c4; c5; q6; q7] (mkSt (VDict kvs1) [] 0))))).
+  assert (Erun : run_passes [c1; c2; c3; c4; c5; q6; q7; A8 ++ c8; q9] (mkSt (VDict kvsb) [] 0)
+                 = irun q9 (irun c8 (irun A8 (run_passes [c1; c2; c3; c4; c5; q6; q7] (mkSt (VDict kvsb) [] 0))))).
   { unfold DeltaRun.run_passes. cbn [fold_left]. rewrite irun_app. reflexivity. }
   rewrite Erun. clear Erun.
-  remember (run_passes [c1; c2; c3; c4; c5; q6; q7] (mkSt (VDict kvs1) [] 0)) as s7 eqn:Es7.
+  remember (run_passes [c1; c2; c3; c4; c5; q6; q7] (mkSt (VDict kvsb) [] 0)) as s7 eqn:Es7.
   destruct s7 as [W7 po7 e7]. cbn [root] in Hk7. subst W7.
   (* pass 8: the node's own additions, then the children's *)
   assert (M7 : forall k, In k AK -> mem_atom k (map fst kvs7) = false).
-  { intros k Hk. rewrite <- Keys7. apply akeys_spec in Hk as [_ M]. exact M. }
+  { intros k Hk. rewrite <- Keys7, MB. apply akeys_spec in Hk as [_ M]. exact M. }
   set (kvs7' := kvs7 ++ map (fun k => (k, ov (assoc k kvs2))) AK).
   assert (EA8 : irun A8 (mkSt (VDict kvs7) po7 e7) = mkSt (VDict kvs7') po7 e7).
   { unfold A8. rewrite (dict_own_adds conv bidir (fun k => ov (assoc k kvs2)) AK kvs7 po7 e7).
     rewrite (fold_dict_set_new (fun k => ov (assoc k kvs2)) AK kvs7 M7 AK_nodup). reflexivity. }
   rewrite EA8.
-  assert (R7' : Rel K (mkSt (VDict kvs7') po7 e7) (fun k => run_passes (restrictP k [c1; c2; c3; c4; c5; q6; q7]) (S0d k))).
+  assert (R7' : Rel K (mkSt (VDict kvs7') po7 e7) (fun k => run_passes (restrictP k [c1; c2; c3; c4; c5; q6; q7]) (S0b kvsb k))).
   { eapply Rel_reroot_dict; [exact R7|]. intros k Hk. destruct R7 as (_ & G7 & _). pose proof (G7 k Hk) as G. cbn [root get_item] in G.
     unfold kvs7'. rewrite G. apply assoc_app_l. exact G. }
   destruct (rel_fold_children conv bidir K c8 _ _ C8 R7') as [R8 O8].
@@ -451,12 +490,12 @@ Proof.
   assert (nonK_A : forall k, In k AK -> forall k0, In k0 K -> py_eq k0 k = false) by (intros k Hk k0 Hk0; apply HKA; assumption).
   assert (I8 : InvD K AK (fun k => ov (assoc k kvs2)) R9 (root (irun c8 (mkSt (VDict kvs7') po7 e7)))).
   { rewrite Hk8. exists kvs8. split; [reflexivity|].
-    assert (Ekeys : map fst kvs8 = map fst kvs1 ++ AK).
+    assert (Ekeys : map fst kvs8 = map fst kvsb ++ AK).
     { rewrite <- Keys8. unfold kvs7'. rewrite map_app, map_map. cbn [fst]. rewrite map_id, <- Keys7. reflexivity. }
     split; [|split; [|split; [|split; [|split]]]].
-    - rewrite Ekeys. clear -N1 N2 Hident. pose proof AK_nodup as NA.
-      assert (X : forall k, In k AK -> mem_atom k (map fst kvs1) = false) by (intros k Hk; apply akeys_spec in Hk as [_ M]; exact M).
-      revert X NA. generalize AK. generalize N1. generalize (map fst kvs1). intros l. induction l as [|x l IH]; intros Nl ak X NA; [exact NA|].
+    - rewrite Ekeys. pose proof AK_nodup as NA.
+      assert (X : forall k, In k AK -> mem_atom k (map fst kvsb) = false) by (intros k Hk; rewrite MB; apply akeys_spec in Hk as [_ M]; exact M).
+      clear -Nb X NA. revert X NA. generalize AK. generalize Nb. generalize (map fst kvsb). intros l. induction l as [|x l IH]; intros Nl ak X NA; [exact NA|].
       cbn in Nl. apply andb_true_iff in Nl as [Nx Nl]. cbn. apply andb_true_iff. split.
       + apply negb_true_iff. apply negb_true_iff in Nx. unfold mem_atom in *. rewrite existsb_app, Nx. cbn [orb].
         destruct (existsb (py_eq x) ak) eqn:Ex; [|reflexivity]. apply existsb_exists in Ex as (b & Hb & E0).
@@ -464,7 +503,7 @@ Proof.
       + apply IH; try assumption. intros k Hk. specialize (X k Hk). cbn in X. apply orb_false_iff in X as [_ X]. exact X.
     - intros k0 Hk0. destruct R8 as (S8 & _). rewrite Hk8 in S8. cbn [sepK] in S8. apply S8. exact Hk0.
     - intros k' Hk'. rewrite Ekeys in Hk'. apply in_app_or in Hk' as [Hk'|Hk']; [|right; left; exact Hk'].
-      destruct (keys1_split k' Hk') as [H|H]; [left; exact H|]. right. right. exists (ov (assoc k' kvs1)).
+      apply KB in Hk'. destruct (keys1_split k' Hk') as [H|H]; [left; exact H|]. right. right. exists (ov (assoc k' kvs1)).
       unfold R9. apply in_map_iff. exists k'. split; [reflexivity|exact H].
     - intros k' Hk'. rewrite <- Off8 by (intros k0 Hk0; apply nonK_A; assumption).
       unfold kvs7'. rewrite assoc_app_r by (apply assoc_None; apply M7; exact Hk').
@@ -476,11 +515,12 @@ Proof.
     - intros x Hx. unfold R9 in Hx. apply in_map_iff in Hx as (k & <- & Hk).
       pose proof (rkeys_spec _ _ k Hk) as [Hk1 Mk2].
       destruct (assoc_In_key k kvs1 N1 Hk1) as (v1 & A1 & Hin1).
-      exists k, v1. rewrite A1. cbn [ov]. split; [reflexivity|]. split; [|split; [|split]].
+      destruct (AB k v1 Hin1) as (vv & Ab & _ & _ & Vv).
+      exists k, v1, vv. rewrite A1. cbn [ov]. split; [reflexivity|]. split; [|split; [|split]].
       + rewrite <- Off8 by (apply nonK_R; exact Hk). unfold kvs7'.
-        assert (A7 : assoc k kvs7 = Some v1) by (rewrite <- Off7 by (apply nonK_R; exact Hk); exact A1).
+        assert (A7 : assoc k kvs7 = Some vv) by (rewrite <- Off7 by (apply nonK_R; exact Hk); exact Ab).
         apply assoc_app_l. exact A7.
-      + eapply forallb_forall in W1; [|exact Hin1]. exact W1.
+      + eapply forallb_forall in W1; [|exact Hin1]. destruct (veqb_facts vv v1 Vv W1) as (_ & _ & Z). exact Z.
       + apply nonK_R. exact Hk.
       + intros k' Hk'. apply akeys_spec in Hk' as [_ M]. destruct (py_eq k k') eqn:E0; [|reflexivity].
         rewrite py_eq_sym in E0. assert (mem_atom k' (map fst kvs1) = true) by (apply mem_atom_In; exists k; split; assumption). congruence. }
@@ -491,20 +531,21 @@ Proof.
   (* the children *)
   set (P := [c1; c2; c3; c4; c5; q6; q7; A8 ++ c8; q9]) in *.
   assert (CH : forall k v1 v2, In (k, v1) kvs1 -> assoc k kvs2 = Some v2 ->
-     errs (finish (irun (restrictL k q9) (irun (restrictL k c8) (run_passes (restrictP k [c1; c2; c3; c4; c5; q6; q7]) (S0d k))))) = 0 /\
-     veqb (root (finish (irun (restrictL k q9) (irun (restrictL k c8) (run_passes (restrictP k [c1; c2; c3; c4; c5; q6; q7]) (S0d k)))))) v2 = true).
+     errs (finish (irun (restrictL k q9) (irun (restrictL k c8) (run_passes (restrictP k [c1; c2; c3; c4; c5; q6; q7]) (S0b kvsb k))))) = 0 /\
+     veqb (root (finish (irun (restrictL k q9) (irun (restrictL k c8) (run_passes (restrictP k [c1; c2; c3; c4; c5; q6; q7]) (S0b kvsb k)))))) v2 = true).
   { intros k v1 v2 Hin A.
     assert (HkK : In k K) by (apply K_spec; split; [apply in_map_iff; exists (k, v1); split; [reflexivity|exact Hin]|exists v2; exact A]).
     assert (EA : restrictL k A8 = []).
     { apply restrictL_own_adds. intros k' Hk' E0. subst k'. pose proof (HKA k k HkK Hk') as Z. rewrite py_eq_refl in Z. discriminate. }
     assert (ER : restrictL k R9 = []).
     { apply restrictL_own_rems. intros k' Hk' E0. subst k'. pose proof (nonK_R k Hk' k HkK) as Z. rewrite py_eq_refl in Z. discriminate. }
-    assert (ES : S0d k = mkSt v1 [] 0).
-    { unfold S0d. rewrite (assoc_nodup kvs1 k v1 k N1 Hin (py_eq_refl k)). reflexivity. }
-    assert (EP : finish (irun (restrictL k q9) (irun (restrictL k c8) (run_passes (restrictP k [c1; c2; c3; c4; c5; q6; q7]) (S0d k))))
-                 = finish (run_passes (restrictP k P) (mkSt v1 [] 0))).
+    destruct (AB k v1 Hin) as (vv & Ab & Hvv & Wvv & Vvv).
+    assert (ES : S0b kvsb k = mkSt vv [] 0).
+    { unfold S0b. rewrite Ab. reflexivity. }
+    assert (EP : finish (irun (restrictL k q9) (irun (restrictL k c8) (run_passes (restrictP k [c1; c2; c3; c4; c5; q6; q7]) (S0b kvsb k))))
+                 = finish (run_passes (restrictP k P) (mkSt vv [] 0))).
     { rewrite ES. unfold P, restrictP, DeltaRun.run_passes. cbn [map fold_left]. rewrite restrictL_app, EA. reflexivity. }
-    rewrite EP. apply (HGD k v1 v2 Hin A).
+    rewrite EP. destruct (HGD k v1 v2 Hin A) as [_ HRT]. apply (HRT vv Wvv Vvv (okb_dict_in conv bidir always kvsb kvs1 kvs2 OB k v1 v2 vv Hin A Ab)).
     rewrite <- (Sa k v1 v2 Hin A).
     pose proof (Arr_restrict k _ _ HA0) as AR. unfold restrictP, P in AR. cbn [map] in AR.
     rewrite !restrictL_app, EA in AR. fold R9 in AR. rewrite ER in AR. cbn [app] in AR.
